@@ -53,3 +53,27 @@ package encryption
 //@ prop C02 C09
 //@ ensures[format] ret1 == nil ==> ret0 == b64enc(base64.URLEncoding, bytes(value)) + "|" + itoa(unix(now)) + "|"
 //@     + b64enc(base64.URLEncoding, hsum(sha256.New, seed, key + b64enc(base64.URLEncoding, bytes(value)) + itoa(unix(now))))
+
+// ------------------------------------------------------------------ C03 / C05: nonces
+// hashOf(n) is what leaves the proxy for nonce bytes n: base64url(SHA-256(n)).
+//@ define hashOf(n string) string = b64enc(base64.RawURLEncoding, hsum(256, "", n))
+
+//@ func HashNonce
+//@ safety
+//@ nomod
+//@ prop C03 C05
+//@ ensures[nil-is-empty] nonce == nil ==> result == ""
+//@ ensures[sha256-base64url] nonce != nil ==> result == hashOf(bytes(nonce))
+
+//@ func CheckNonce
+//@ safety
+//@ nomod
+//@ prop C03 C05
+//@ ensures[compares-hash] result <==> ite(nonce == nil, "", hashOf(bytes(nonce))) == hashed
+
+//@ func GenerateCodeChallenge
+//@ safety
+//@ prop C05
+//@ ensures[plain] method == "plain" ==> ret1 == nil && ret0 == codeVerifier
+//@ ensures[s256] method == "S256" ==> ret1 == nil && ret0 == b64enc(base64.RawURLEncoding, crypto_sha256(codeVerifier))
+//@ ensures[other-is-error] method != "plain" && method != "S256" ==> ret1 != nil && ret0 == ""
